@@ -35,7 +35,7 @@ def harness_src(g, pkg, props, unconstrained=False, entry="", file_name=""):
     s = []
     s.append("package %s\n" % pkg)
     if "C18" in props:
-        s.append('import (\n\t"sync"\n\t"sync/atomic"\n\n\t"vh/ref"\n)\n')
+        s.append('import (\n\t"fmt"\n\t"sort"\n\t"sync"\n\t"sync/atomic"\n\n\t"vh/ref"\n)\n')
     else:
         s.append('import "vh/ref"\n')
     s.append("const symAlphabet = %s\n" % go_bytes_str(alpha))
@@ -414,6 +414,70 @@ func Harness_C18(n int) {
 }
 ''' % ((("", "", "") if g.get("_optimized") else (", Memoize(symBool(\"m1\"))", ", Memoize(symBool(\"m2\"))", ", Memoize(symBool(\"m1\"))"))))
     if "C18" in props:
+        s.append('''
+// C18 (order independence): what Parse(b) returns after another call equals
+// what it returns in a process of its own - values, errors, block trace and
+// the statistics it hands back. symFreshProcess puts every package-level
+// variable of the generated package back to its initial value, so a cache
+// filled by whichever call comes first is visible here. The native
+// confirmation runs the two halves in two processes (symMode).
+func c18Digest(o outcome, st *Stats) string {
+	s := fmt.Sprintf("%%v|%%v|%%v", o.v, errStrings(o.err), o.tr)
+	if st != nil {
+		keys := []string{}
+		for k := range st.ChoiceAltCnt {
+			keys = append(keys, k)
+		}
+		sort.Strings(keys)
+		s += fmt.Sprintf("|%%d", st.ExprCnt)
+		for _, k := range keys {
+			alts := []string{}
+			for a := range st.ChoiceAltCnt[k] {
+				alts = append(alts, a)
+			}
+			sort.Strings(alts)
+			for _, a := range alts {
+				s += fmt.Sprintf("|%%s/%%s=%%d", k, a, st.ChoiceAltCnt[k][a])
+			}
+		}
+	}
+	return s
+}
+
+func Harness_C18order(n int) {
+	inA := symInputNamed("a", n, true)
+	inB := symInputNamed("b", n, true)
+	mode := symMode()
+	var after, alone outcome
+	%s
+	if mode != "alone" {
+		runReal(inA%s)
+		after = runReal(inB%s)
+	}
+	symFreshProcess()
+	if mode != "after" {
+		alone = runReal(inB%s)
+	}
+	if mode != "both" {
+		if mode == "after" {
+			symNote("digest:" + c18Digest(after, %s))
+		} else {
+			symNote("digest:" + c18Digest(alone, %s))
+		}
+		symReach("end")
+		return
+	}
+	symNote(outcomeNote(alone))
+	symAssert(!after.panicked && !alone.panicked, "C18: Parse panicked")
+	symAssert(symEqual(alone.v, after.v), "C18: the value of a Parse differs from what the call returns in a process of its own")
+	symAssert(sameStrings(errStrings(alone.err), errStrings(after.err)), "C18: the errors of a Parse differ from what the call returns in a process of its own")
+	symAssert(symEqual(alone.tr, after.tr), "C18: the code blocks of a Parse saw different contexts than in a process of its own")
+	%s
+	symReach("end")
+}
+''' % (("", "", "", "", "nil", "nil", "") if g.get("_optimized") else
+       ("var stA, st1, st2 Stats", ", Statistics(&stA, \"no match\")", ", Statistics(&st1, \"no match\")", ", Statistics(&st2, \"no match\")", "&st1", "&st2",
+        "symAssert(st1.ExprCnt == st2.ExprCnt && symEqual(st1.ChoiceAltCnt, st2.ChoiceAltCnt), \"C18: the statistics of a Parse differ from what the call reports in a process of its own\")")))
         s.append('''
 // C18 (aborted calls): the middle call is cut short by an expression budget at
 // an arbitrary point (a recovered panic in the middle of rules, labels and
